@@ -6,7 +6,15 @@ impl Vm {
   /// This acts as a hook for native functions to execute laythe function
   pub(super) unsafe fn run_fun(&mut self, callable: Value, args: &[Value]) -> Call { unsafe {
     let mut fiber = self.fiber;
+
+    // growing the stack allocates and may collect, until they are pushed
+    // the arguments are only known to the calling native
+    self.push_root(callable);
+    for arg in args {
+      self.push_root(*arg);
+    }
     fiber.ensure_stack(self, args.len() + 1);
+    self.pop_roots(args.len() + 1);
 
     fiber.push(callable);
     for arg in args {
@@ -36,7 +44,16 @@ impl Vm {
   pub(super) unsafe fn run_method(&mut self, this: Value, method: Value, args: &[Value]) -> Call { unsafe {
     let mut fiber = self.fiber;
 
+    // growing the stack allocates and may collect, until they are pushed
+    // the receiver and arguments are only known to the calling native
+    self.push_root(this);
+    self.push_root(method);
+    for arg in args {
+      self.push_root(*arg);
+    }
     fiber.ensure_stack(self, args.len() + 1);
+    self.pop_roots(args.len() + 2);
+
     fiber.push(this);
     for arg in args {
       fiber.push(*arg);
